@@ -280,11 +280,15 @@ def run_case(spec, ctx):
         graph = {}
         for p in pts:
             graph.update(dr.get_dependency_graph(p))
+        old_switch = sys.getswitchinterval()
+        if pool is not None:
+            sys.setswitchinterval(1e-6)          # the persister's worker threads interleave at every opportunity
         try:
             dr.run(dict(graph), broker=br)
         finally:
             if pool is not None:
                 pool.shutdown(wait=True)
+            sys.setswitchinterval(old_switch)
         os.makedirs(out, exist_ok=True)
         open(os.path.join(out, "insights_archive.txt"), "w").close()
         ctx.count("archives_written")
@@ -305,6 +309,25 @@ def run_case(spec, ctx):
                 items.append({"content": c, "cmd": prov.cmd, "args": prov.args, "relative_path": prov.relative_path, "save_as": prov.save_as,
                               "cls": type(prov).__name__})
             expected[k] = {"multi": isinstance(v, list), "items": items}
+        # the host goes on living after the collection: collected files are appended to / truncated in place (a daemon
+        # writing its log, logrotate copytruncate) before the archive is loaded - the archive holds a snapshot
+        import random as _random
+        rr = _random.Random(spec.get("subset_seed", 0) ^ 0x5eed)
+        for dp, dn, fn in os.walk(root):
+            for f_ in sorted(fn):
+                fp_ = os.path.join(dp, f_)
+                if os.path.islink(fp_) or not os.path.isfile(fp_) or rr.random() < 0.3:
+                    continue
+                try:
+                    if rr.random() < 0.6:
+                        with open(fp_, "ab") as fh_:
+                            fh_.write(b"APPENDED-AFTER-COLLECTION\n")
+                    else:
+                        with open(fp_, "r+b") as fh_:
+                            fh_.truncate(0)
+                    ctx.count("source_files_changed_in_place_after_collection")
+                except OSError:
+                    pass
         meta_dir = os.path.join(out, "meta_data")
         meta_files = sorted(os.listdir(meta_dir)) if os.path.isdir(meta_dir) else []
         meta_of = {}
